@@ -59,6 +59,7 @@ def tokenise(case, out):
 
 def check(run):
     import genlib
+    genlib.validate_tabulation_objects(run, kinds=("tabeam", "tabeam_fs"), n=run.n(6, 50))
     genlib.validate_eam_writer(run, "tabeam", n=run.n(10, 100))
     genlib.validate_eam_writer(run, "tabeam_fs", n=run.n(6, 60))
     run.rule = ("tracer EAM and Finnis-Sinclair models (1..4 elements, random subset/orientation/order of declared pairs, grids nr 2..14, nrho 2..11 on dyadic "
